@@ -55,6 +55,16 @@ FLOWS: list[dict[str, Any]] = [
         ),
     },
     {
+        "name": "RND->CTL(zone 0F)",  # a controller configured for 16 zones
+        "resp": {"01:220768": {"class": "CTL"}},
+        "supp": {"34:259472": {"class": "RND", "faked": True}},
+        "flow": (
+            " I --- 34:259472 --:------ 34:259472 1FC9 024 0023098BF5900030C98BF5900000088BF590001FC98BF590",
+            " W --- 01:220768 34:259472 --:------ 1FC9 006 0F2309075E60",
+            " I --- 34:259472 01:220768 --:------ 1FC9 006 0F23098BF590",
+        ),
+    },
+    {
         "name": "DHW->CTL",
         "resp": {"01:145038": {"class": "CTL"}},
         "supp": {"07:045960": {"class": "DHW", "faked": True}},
